@@ -53,7 +53,7 @@ def gen_node_id(rng, i):
     return f'{rng.randrange(16 ** 8):08x}-{i}'
 
 
-def gen_graph(rng, nmin=1, nmax=12, classes=CLASSES, rels=RELS, edge_p=None, ints=True, maxprops=6):
+def gen_graph(rng, nmin=1, nmax=12, classes=CLASSES, rels=RELS, edge_p=None, ints=True, maxprops=6, selfloops=0.0):
     n = rng.randrange(nmin, nmax + 1)
     nodes = []
     for i in range(n):
@@ -68,6 +68,11 @@ def gen_graph(rng, nmin=1, nmax=12, classes=CLASSES, rels=RELS, edge_p=None, int
                 eprops = gen_props(rng, 3, ints)
                 eprops.pop('Class', None)
                 edges.append({'a': ids[i], 'b': ids[j], 'cls': rng.choice(rels), 'props': eprops})
+        if selfloops and rng.random() < selfloops:
+            # a link from a node to itself (the interface accepts it)
+            eprops = gen_props(rng, 2, ints)
+            eprops.pop('Class', None)
+            edges.append({'a': ids[i], 'b': ids[i], 'cls': rng.choice(rels), 'props': eprops})
     return {'nodes': nodes, 'edges': edges}
 
 
